@@ -276,9 +276,13 @@ func c10ConfChange(c *Check) {
 					case "LeaveJoint":
 						ok = tested.HasBool(isCallTo(leaveJ), true) != nil
 					case "EnterJoint":
-						ok = tested.HasBool(isCallTo(leaveJ), false) != nil && tested.HasBool(func(s *Sym) bool { return s.K == KExtract && s.Idx == 1 && s.Args[0].K == KCall && s.Args[0].Fn == enterJ }, true) != nil
+						ok = tested.HasBool(isCallTo(leaveJ), false) != nil && tested.HasBool(func(s *Sym) bool {
+							return s.K == KExtract && s.Idx == 1 && s.Args[0].K == KCall && s.Args[0].Fn == enterJ
+						}, true) != nil
 					case "Simple":
-						ok = tested.HasBool(isCallTo(leaveJ), false) != nil && tested.HasBool(func(s *Sym) bool { return s.K == KExtract && s.Idx == 1 && s.Args[0].K == KCall && s.Args[0].Fn == enterJ }, false) != nil
+						ok = tested.HasBool(isCallTo(leaveJ), false) != nil && tested.HasBool(func(s *Sym) bool {
+							return s.K == KExtract && s.Idx == 1 && s.Args[0].K == KCall && s.Args[0].Fn == enterJ
+						}, false) != nil
 					}
 					c.Result(ok, "C10.A", "applyConfChange selects "+name, fnName(an), p.site(ci), "chosen by cc.LeaveJoint() / cc.EnterJoint()", strings.Join(f.Describe(), "; "))
 				}
